@@ -236,11 +236,8 @@ def run_server(c):
         if srv.server is not None:
             try:
                 port = srv.server.server_address[1]
-                s = socket.create_connection(("127.0.0.1", port), timeout=5)
-                s.sendall(b'{"command":"version"}\n')
-                s.shutdown(socket.SHUT_WR)
-                data = s.recv(1000)
-                s.close()
+                from checks.c03 import _talk
+                data = _talk(port, b'{"command":"version"}', timeout=5)
                 answered = mw.parse_reply(data) is not None
                 break
             except OSError:
